@@ -32,14 +32,18 @@ RULE = ("content specs: EMPTY, ANY, (#PCDATA), (#PCDATA)*, all mixed lists over 
         "plus one foreign name is evaluated on implementation, model and Spec. evaluations = number of (spec, sequence) "
         "pairs plus document parses; distinct_nontrivial = number of distinct specs having both accepted and rejected sequences. "
         "Document tier: random DTDs (2-4 element types, all content-spec kinds, 0-3 attribute definitions of every modelled type and "
-        "default kind, 0-2 general entities) whose declarations are placed in the internal subset, an external subset served from memory, or "
+        "default kind incl. IDREF/IDREFS/ENTITY/ENTITIES defaults naming existing and missing IDs / unparsed entities, an element type that "
+        "never occurs, 0-2 general entities) whose declarations are placed in the internal subset, in parameter entities (internal or external, "
+        "served from memory) referenced in the internal subset, in an external subset served from memory (there also through PEs), or "
         "split; standalone yes/no/absent; instance sampled from the content models; 65% of the documents get ONE mutation out of "
         "36 kinds (instance, DTD, standalone clauses of XML 1.0 2.9, subset placement, entity references); each document is parsed in 16 modes "
         "({XercesDOMParser, SAXParser} x {IGXMLScanner, DGXMLScanner} x namespaces off/on x validation always/never) with parser objects reused")
 ASSUMPTIONS = ["document tier: for invalid documents with class 'character-data-not-allowed' or 'unique-element-type-declaration' the delivered "
                "character data is not compared (a validating parse reports character data in element content as a validity error and does not "
                "deliver it; of duplicated element declarations the library lets the last one take effect)",
-               "document tier: ENTITY/ENTITIES/NOTATION attribute types, parameter entities and unparsed entities are not generated",
+               "document tier: NOTATION attribute types are not generated; parameter entities always hold complete declarations; unparsed entities are "
+               "declared in the internal subset; a PE declared in the external subset is not referenced there in standalone=\"yes\" documents "
+               "(the library reports that reference itself as a 2.9 violation, a debatable reading)",
                "children passed to validateContent are element QNames (never PCDATA), as the DTD scanners do",
                "content spec trees have the shape DTDScanner builds (binary Sequence/Choice, unary ?,*,+); n-ary groups are nested binary",
                "names are compared as Nat ids (raw-name string comparison is XMLString::equals)"]
@@ -339,7 +343,7 @@ def dflt_tok(d):
 def type_text(t):
     if isinstance(t, tuple):
         return "(" + "|".join(tok_str(x) for x in t[1]) + ")"
-    return {"C": "CDATA", "I": "ID", "R": "IDREF", "RS": "IDREFS", "N": "NMTOKEN", "NS": "NMTOKENS"}[t]
+    return {"C": "CDATA", "I": "ID", "R": "IDREF", "RS": "IDREFS", "N": "NMTOKEN", "NS": "NMTOKENS", "Y": "ENTITY", "YS": "ENTITIES"}[t]
 
 def dflt_text(d):
     if isinstance(d, tuple):
@@ -351,14 +355,14 @@ def eff_atts(decls, name):
     """binding attribute definitions: internal subset first, first definition of a name wins"""
     allatts = [a for d in decls if d["name"] == name for a in d["atts"]]
     out, seen = [], set()
-    for a in [x for x in allatts if not x[3]] + [x for x in allatts if x[3]]:
+    for a in [x for x in allatts if x[3] != 1] + [x for x in allatts if x[3] == 1]:
         if a[0] not in seen:
             seen.add(a[0]); out.append(a)
     return out
 
 def find_decl(decls, name):
     for d in decls:
-        if d["name"] == name and not d["ext"]:
+        if d["name"] == name and d["ext"] != 1:
             return d
     for d in decls:
         if d["name"] == name:
@@ -367,7 +371,7 @@ def find_decl(decls, name):
 
 def find_ent(ents, n):
     for e in ents:
-        if e[0] == n and not e[1]:
+        if e[0] == n and e[1] != 1:
             return e
     for e in ents:
         if e[0] == n:
@@ -377,15 +381,21 @@ def find_ent(ents, n):
 def b01(x):
     return "1" if x else "0"
 
+def org(x):
+    """origin of a declaration: 0 internal subset, 1 external subset, 2 parameter entity referenced in the internal
+    subset (processed in internal-subset order, but an EXTERNAL markup declaration for XML 1.0 2.9)"""
+    return str(int(x))
+
 def abstract_line(doc):
     w = ["X", str(doc["doctype"]), str(doc["standalone"]), b01(doc["hasExt"]), str(len(doc["decls"]))]
     for d in doc["decls"]:
-        w += ["EL", str(d["name"]), d["spec"], b01(d["ext"]), str(len(d["atts"]))]
+        w += ["EL", str(d["name"]), d["spec"], org(d["ext"]), str(len(d["atts"]))]
         for a in d["atts"]:
-            w += [str(a[0]), type_tok(a[1]), dflt_tok(a[2]), b01(a[3])]
+            w += [str(a[0]), type_tok(a[1]), dflt_tok(a[2]), org(a[3])]
     w.append(str(len(doc["ents"])))
     for e in doc["ents"]:
-        w += [str(e[0]), b01(e[1])]
+        w += [str(e[0]), org(e[1])]
+    w.append(val_str(doc.get("unparsed", [])))
     def el(e):
         w.extend(["E", str(e["name"]), b01(e["text"]), b01(e["ws"]), val_str(e["refs"]), str(len(e["attrs"]))])
         for a in e["attrs"]:
@@ -399,13 +409,36 @@ def abstract_line(doc):
 def render(doc, r):
     """(document text, external subset text or None) of an abstract document; well-formed by construction
     except for the entity-declared WFC, which the Spec judges"""
-    internal, external = [], []
+    internal, external, extra = [], [], {}
+    cnt = [0]
+    def put(origin, text):
+        if origin == 1:
+            # through an internal parameter entity of the external subset; not in standalone="yes" documents, where the
+            # library reports the reference to the externally declared PE itself as a 2.9 violation (debatable reading)
+            if doc["standalone"] != 2 and r.chance(1, 4):
+                cnt[0] += 1
+                external.append("<!ENTITY %% q%d '%s'>\n%%q%d;" % (cnt[0], text, cnt[0]))
+            else:
+                external.append(text)
+        elif origin == 2:               # parameter entity (internal or external) referenced in the internal subset
+            cnt[0] += 1
+            if (doc.get("pe_kind") or ("int" if r.chance(2, 3) else "ext")) == "int":
+                internal.append("<!ENTITY %% p%d '%s'>\n%%p%d;" % (cnt[0], text, cnt[0]))
+            else:
+                extra["pe%d.ent" % cnt[0]] = ('<?xml version="1.0" encoding="UTF-8"?>' if r.chance(1, 4) else "") + text + "\n"
+                internal.append('<!ENTITY %% p%d SYSTEM "pe%d.ent">\n%%p%d;' % (cnt[0], cnt[0], cnt[0]))
+        else:
+            internal.append(text)
+    if doc.get("unparsed"):
+        internal.append('<!NOTATION nt SYSTEM "nt">')
+        for u in doc["unparsed"]:
+            internal.append('<!ENTITY %s SYSTEM "u%d" NDATA nt>' % (tok_str(u), u))
     for d in doc["decls"]:
-        (external if d["ext"] else internal).append("<!ELEMENT e%d %s>" % (d["name"], spec_text(d["spec"])))
+        put(int(d["ext"]), "<!ELEMENT e%d %s>" % (d["name"], spec_text(d["spec"])))
         for a in d["atts"]:
-            (external if a[3] else internal).append("<!ATTLIST e%d a%d %s %s>" % (d["name"], a[0], type_text(a[1]), dflt_text(a[2])))
+            put(int(a[3]), "<!ATTLIST e%d a%d %s %s>" % (d["name"], a[0], type_text(a[1]), dflt_text(a[2])))
     for e in doc["ents"]:
-        (external if e[1] else internal).append('<!ENTITY n%d "t">' % e[0])
+        put(int(e[1]), '<!ENTITY n%d "t">' % e[0])
     decl = "" if doc["standalone"] == 0 else '<?xml version="1.0" standalone="%s"?>\n' % ("yes" if doc["standalone"] == 2 else "no")
     out = [decl + "<!DOCTYPE e%d%s [" % (doc["doctype"], ' SYSTEM "ext.dtd"' if doc["hasExt"] else "")]
     out += internal
@@ -435,7 +468,7 @@ def render(doc, r):
     ext = None
     if doc["hasExt"]:
         ext = ('<?xml version="1.0" encoding="UTF-8"?>\n' if r.chance(1, 3) else "") + "\n".join(external) + ("\n" if external else "")
-    return "\n".join(out), ext
+    return "\n".join(out), ext, extra
 
 def sample_cm(r, p, pos, minimal):
     """a word of the particle in Polish notation starting at pos; returns (word, next pos)"""
@@ -461,9 +494,13 @@ def sample_cm(r, p, pos, minimal):
 
 def gen_doc(r):
     nel = 2 + r.below(3)
-    extmode = r.below(4)            # 0: internal subset only, 1: everything external, 2/3: split
+    extmode = r.below(6)            # 0: internal subset only, 1: everything external, 2: split, 3/4: split incl. PEs, 5: all via PEs
     def ext():
-        return False if extmode == 0 else True if extmode == 1 else r.chance(1, 2)
+        if extmode == 0: return 0
+        if extmode == 1: return 1
+        if extmode == 2: return r.below(2)
+        if extmode == 5: return 2
+        return r.choice([0, 1, 2, 2])
     decls = []
     for n in range(nel):
         k = r.below(20)
@@ -474,11 +511,15 @@ def gen_doc(r):
             names = [x for x in range(nel) if r.chance(1, 2)] or [r.below(nel)]
             if r.chance(1, 2): names.reverse()
             spec = "M" + "".join(map(str, names))
+        elif r.chance(1, 4) or n == nel - 1:
+            spec = "K" + rand_cm(r, 1 + r.below(3), nel)          # may be recursive
         else:
-            spec = "K" + rand_cm(r, 1 + r.below(3), nel)
+            # children only of later element types: every instance terminates
+            cm = rand_cm(r, 1 + r.below(3), nel - n - 1)
+            spec = "K" + "".join(str(int(c) + n + 1) if c.isdigit() else c for c in cm)
         atts = []
         for a in range(r.below(4)):
-            t = r.choice(["C", "C", "I", "R", "RS", "N", "NS", "G"])
+            t = r.choice(["C", "C", "I", "R", "R", "RS", "N", "NS", "G", "Y", "YS"])
             if t == "I" and any(x[1] == "I" for x in atts):
                 t = "C"
             if t == "G":
@@ -489,18 +530,26 @@ def gen_doc(r):
                 d = r.choice(["REQ", "IMP"])
             else:
                 k = r.below(4)
-                if k == 0: d = "REQ"
+                if k == 0: d = "REQ" if t not in ("R", "RS") or r.chance(1, 3) else "IMP"
                 elif k == 1: d = "IMP"
                 else:
                     if isinstance(t, tuple): v = [r.choice(t[1])]
                     elif t == "C": v = [r.below(8) for _ in range(r.below(3))]
-                    elif t == "R": v = None
-                    elif t == "RS": v = None
+                    elif t == "R": v = [r.choice([20, 21, 78])]          # 78/79 are never IDs ("ghost")
+                    elif t == "RS": v = r.choice([[20], [20, 21], [78], [20, 79]])
+                    elif t == "Y": v = [r.choice([30, 30, 32])]            # 30/31 declared unparsed entities, 32 not
+                    elif t == "YS": v = r.choice([[30], [30, 31], [32], [31, 32]])
                     elif t == "N": v = [r.choice([1, 2, 90])]
                     else: v = [r.choice([1, 2, 90]) for _ in range(1 + r.below(2))]
                     d = "IMP" if v is None else (("FIX" if k == 2 else "DEF"), v)
             atts.append((a, t, d, ext()))
         decls.append({"name": n, "spec": spec, "atts": atts, "ext": ext()})
+    if r.chance(1, 3):
+        # an element type that never occurs in the instance: its defaults are never applied
+        t = r.choice(["R", "R", "RS", "Y", "N"])
+        v = {"R": [[78], [20]], "RS": [[20, 79], [78]], "Y": [[32], [30]], "N": [[90]]}[t]
+        decls.append({"name": nel, "spec": r.choice(["E", "A", "M"]), "ext": ext(),
+                      "atts": [(0, t, (r.choice(["DEF", "FIX"]), r.choice(v)), ext())]})
     ents = [(k, ext()) for k in range(r.below(3))]
     standalone = r.choice([0, 1, 2, 2])
     state = {"next_id": 20, "ids": [], "refs": []}
@@ -533,6 +582,8 @@ def gen_doc(r):
             elif df == "IMP": want = r.chance(1, 2)
             elif df[0] == "DEF": want = r.chance(2, 5)
             else: want = r.chance(1, 3)
+            if isinstance(df, tuple) and t in ("R", "RS", "Y", "YS") and any(x in (78, 79, 32) for x in df[1]):
+                want = r.chance(4, 5)       # a default naming a missing ID / entity is fine as long as it is never applied
             if not want:
                 continue
             if isinstance(df, tuple) and df[0] == "FIX":
@@ -543,20 +594,66 @@ def gen_doc(r):
                 v = [state["next_id"]]; state["next_id"] += 1; state["ids"].append(v[0])
             elif t in ("R", "RS"):
                 v = [None] * (1 if t == "R" else 1 + r.below(2))
-                state["refs"].append(v)
+                state["refs"].append((v, e, an, df == "REQ"))
             elif t == "N": v = [r.choice([1, 2, 3, 90])]
+            elif t == "Y": v = [r.choice([30, 31])]
+            elif t == "YS": v = [r.choice([30, 31]) for _ in range(1 + r.below(2))]
             else: v = [r.choice([1, 2, 3, 90]) for _ in range(1 + r.below(3))]
             padded = bool(v) and t != "C" and r.chance(1, 4)
             e["attrs"].append((an, v, padded))
         return e
     root = gen_elem(0, 0)
-    for v in state["refs"]:
+    for (v, e, an, required) in state["refs"]:
+        if not state["ids"] and not required:
+            e["attrs"] = [a for a in e["attrs"] if a[0] != an]      # nothing to refer to
+            continue
         for k in range(len(v)):
             v[k] = r.choice(state["ids"]) if state["ids"] else 77      # 77: unresolved (the Spec judges)
-    doc = {"doctype": 0, "standalone": standalone, "hasExt": False, "decls": decls, "ents": ents, "root": root}
+    doc = {"doctype": 0, "standalone": standalone, "hasExt": False, "decls": decls, "ents": ents, "root": root,
+           "unparsed": [30, 31] if r.chance(4, 5) else [30]}
+    if r.chance(4, 5):
+        repair_refs(doc, r)
     if standalone == 2 and r.chance(3, 4):
         make_standalone_ok(doc)
     return doc, nel
+
+def repair_refs(doc, r):
+    """make the base document valid w.r.t. IDREF / ENTITY defaults and required IDREFs: a default that names a missing
+    ID / undeclared entity stays in the DTD but is never applied (the attribute is specified, or the default is dropped
+    when it cannot be); what is left dangling is judged by the Spec"""
+    decls = doc["decls"]
+    es = all_elems(doc["root"], [])
+    ids = []
+    for x in es:
+        at = {a[0]: a for a in eff_atts(decls, x["name"])}
+        for (n, v, _p) in x["attrs"]:
+            if n in at and at[n][1] == "I":
+                ids += v
+    unp = doc.get("unparsed", [])
+    def ok(t, v):
+        return all(x in ids for x in v) if t in ("R", "RS") else all(x in unp for x in v)
+    for d in decls:
+        for j, a in enumerate(d["atts"]):
+            (an, t, df, o) = a
+            if t not in ("R", "RS", "Y", "YS"):
+                continue
+            good = ids if t in ("R", "RS") else unp
+            for x in es:
+                if x["name"] != d["name"] or eff_atts(decls, x["name"]).count(a) == 0:
+                    continue
+                have = [k for k, y in enumerate(x["attrs"]) if y[0] == an]
+                if have:
+                    k = have[0]
+                    if not ok(t, x["attrs"][k][1]) and not (isinstance(df, tuple) and df[0] == "FIX"):
+                        if good:
+                            x["attrs"][k] = (an, [r.choice(good)], x["attrs"][k][2])
+                        elif df != "REQ":
+                            del x["attrs"][k]
+                elif isinstance(df, tuple) and not ok(t, df[1]):
+                    if good and df[0] == "DEF":
+                        x["attrs"].append((an, [r.choice(good)], False))        # the dangling default is never applied
+                    else:
+                        d["atts"][j] = a = (an, t, "IMP", o); df = "IMP"
 
 def make_standalone_ok(doc):
     """repair a document so that standalone="yes" is truthful (XML 1.0 2.9); mutations then break one clause"""
@@ -572,7 +669,7 @@ def make_standalone_ok(doc):
         d = find_decl(decls, e["name"])
         if d is not None and d["ext"] and d["spec"][0] == "K":
             e["ws"] = False
-        e["refs"] = [x for x in e["refs"] if (find_ent(doc["ents"], x) or (0, True))[1] is False]
+        e["refs"] = [x for x in e["refs"] if (find_ent(doc["ents"], x) or (0, 1))[1] == 0]
 
 def all_elems(e, acc):
     acc.append(e)
@@ -584,8 +681,8 @@ MUTATIONS = ["root", "child-del", "child-ins", "child-repl", "child-swap", "text
              "id-dup", "idref-break", "id-nonname", "fixed-change", "enum-bad", "multi-token", "empty-value",
              "dtd-dup-elem", "dtd-second-id", "dtd-id-default", "dtd-enum-default", "dtd-dup-token", "dtd-mixed-dup",
              "dtd-undeclare", "dtd-idref-default", "dtd-content", "dtd-required",
-             "sa-omit-default", "sa-omit-default", "sa-omit-fixed", "sa-omit-fixed", "sa-pad", "sa-ws", "sa-extref", "sa-flip", "ext-flip",
-             "ent-undeclared", "ent-ref", "ws"]
+             "sa-omit-default", "sa-omit-default", "sa-omit-fixed", "sa-omit-fixed", "sa-pad", "sa-ws", "sa-ws", "sa-ws", "sa-extref", "sa-flip", "ext-flip",
+             "ent-undeclared", "ent-ref", "ws", "idref-default-ghost", "idref-default-ghost", "entity-bad"]
 
 def mutate(doc, nel, r):
     """one single-constraint mutation (may be a no-op or leave the document valid: the Spec judges)"""
@@ -662,7 +759,7 @@ def mutate(doc, nel, r):
             x, k, a = r.choice(c)
             setval(x, k, [r.choice([14, 15, 1])])
     elif kind == "multi-token":
-        c = typed(lambda a: a[1] in ("I", "R", "N") or isinstance(a[1], tuple))
+        c = typed(lambda a: a[1] in ("I", "R", "N", "Y") or isinstance(a[1], tuple))
         if c:
             x, k, a = r.choice(c)
             setval(x, k, list(x["attrs"][k][1]) * 2)
@@ -714,7 +811,7 @@ def mutate(doc, nel, r):
             d = find_decl(decls, e["name"])
             if d is not None and not any(a[0] in (4,) for a in e["attrs"]):
                 t = r.choice(["C", "N", ("G", [10, 11])])
-                d["atts"].append((4, t, (want, [10]), True))
+                d["atts"].append((4, t, (want, [10]), 1 + r.below(2)))
     elif kind == "sa-pad":
         c = typed(lambda a: a[1] != "C")
         if c:
@@ -723,28 +820,51 @@ def mutate(doc, nel, r):
                 x["attrs"][k] = (x["attrs"][k][0], x["attrs"][k][1], True)
     elif kind == "sa-ws":
         c = [x for x in es if (find_decl(decls, x["name"]) or {"spec": "E"})["spec"][0] == "K"]
-        if c:
-            r.choice(c)["ws"] = True
+        c2 = [x for x in c if find_decl(decls, x["name"])["ext"]]
+        if c2 and r.chance(3, 4):
+            x = r.choice(c2); x["ws"] = True
+            if r.chance(1, 2):
+                find_decl(decls, x["name"])["ext"] = 2          # delivered by a parameter entity referenced in the internal subset
+        elif c:
+            x = r.choice(c); x["ws"] = True
+            if r.chance(1, 2):
+                find_decl(decls, x["name"])["ext"] = 1 + r.below(2)
     elif kind == "sa-extref":
         ex = [n for n in doc["ents"] if n[1]]
         c = [x for x in es if (find_decl(decls, x["name"]) or {"spec": "E"})["spec"][0] in "AMN"]
         if c:
             if not ex:
-                doc["ents"].append((7, True)); ex = [(7, True)]
+                o = 1 + r.below(2)
+                doc["ents"].append((7, o)); ex = [(7, o)]
             r.choice(c)["refs"].append(r.choice(ex)[0])
     elif kind == "sa-flip":
         doc["standalone"] = 2 if doc["standalone"] != 2 else r.choice([0, 1])
     elif kind == "ext-flip":
         k = r.below(3)
         if k == 0:
-            d = r.choice(decls); d["ext"] = not d["ext"]
+            d = r.choice(decls); d["ext"] = (int(d["ext"]) + 1 + r.below(2)) % 3
         elif k == 1:
             ds = [d for d in decls if d["atts"]]
             if ds:
                 d = r.choice(ds); j = r.below(len(d["atts"])); a = d["atts"][j]
-                d["atts"][j] = (a[0], a[1], a[2], not a[3])
+                d["atts"][j] = (a[0], a[1], a[2], (int(a[3]) + 1 + r.below(2)) % 3)
         elif doc["ents"]:
-            j = r.below(len(doc["ents"])); doc["ents"][j] = (doc["ents"][j][0], not doc["ents"][j][1])
+            j = r.below(len(doc["ents"])); doc["ents"][j] = (doc["ents"][j][0], (int(doc["ents"][j][1]) + 1 + r.below(2)) % 3)
+    elif kind == "idref-default-ghost":
+        # IDREF/IDREFS default (or #FIXED) naming an ID that does not exist: valid iff the default is never applied
+        d = r.choice(decls)
+        t = r.choice(["R", "RS"])
+        d["atts"].append((4, t, (r.choice(["DEF", "DEF", "FIX"]), [78] if t == "R" else r.choice([[78], [20, 79]])), r.below(3) if doc_has_ext(doc) else 0))
+        ids = [v for x in es for (n, vv, _p) in x["attrs"] for v in vv
+               if n in {a[0] for a in eff_atts(decls, x["name"]) if a[1] == "I"}]
+        for x in es:
+            if x["name"] == d["name"] and r.chance(4, 5) and ids and not any(a[0] == 4 for a in x["attrs"]):
+                x["attrs"].append((4, [r.choice(ids)], False))
+    elif kind == "entity-bad":
+        c = typed(lambda a: a[1] in ("Y", "YS"))
+        if c:
+            x, k, _ = r.choice(c)
+            setval(x, k, [r.choice([32, 90])])
     elif kind == "ent-undeclared":
         e["refs"].append(9)
     elif kind == "ent-ref" and doc["ents"]:
@@ -752,7 +872,7 @@ def mutate(doc, nel, r):
     return kind
 
 def doc_has_ext(doc):
-    return any(d["ext"] or any(a[3] for a in d["atts"]) for d in doc["decls"]) or any(e[1] for e in doc["ents"])
+    return any(d["ext"] == 1 or any(a[3] == 1 for a in d["atts"]) for d in doc["decls"]) or any(e[1] == 1 for e in doc["ents"])
 
 def finish_doc(doc, r):
     """derive hasExt (sometimes an empty external subset)"""
@@ -790,7 +910,8 @@ def run_docs(docs, verbose=False):
     """docs: list of (abstract line, xml, ext).  Returns per doc (spec out, harness line), stderr"""
     ab = ("\n".join(d[0] for d in docs) + "\n").encode()
     sp = common.run_driver(["dtdspec"], input=ab).decode(errors="replace").split("\n")
-    lines = ["%s %s %s" % ("MV" if verbose else "M", hexs(d[1]), "-" if d[2] is None else hexs(d[2])) for d in docs]
+    lines = ["%s %s %s%s" % ("MV" if verbose else "M", hexs(d[1]), "-" if d[2] is None else hexs(d[2]),
+                             "".join(" %s=%s" % (k, hexs(v)) for k, v in sorted((d[4] or {}).items()))) for d in docs]
     # several harness processes side by side (each reuses its own parser objects); results keep document order
     from concurrent.futures import ThreadPoolExecutor
     common.build_harness("hx_cm")
@@ -886,9 +1007,57 @@ def judge_doc0(spec_out, impl_out):
                         % (m[k]["dump"], ssax if k.startswith("sax") else sdump, modes_str(ms)), ms))
     return bad
 
+def family_docs(r):
+    """the systematic part of the document tier: minimal documents for every clause of the standalone-declaration VC crossed
+    with where the declaration comes from, and for IDREF(S)/ENTITY(IES) defaults naming a missing ID / entity crossed with
+    'default applied / attribute specified / element type never occurs'.  The Spec judges each of them like any other."""
+    out = []
+    def el(name, attrs=(), children=(), ws=False, text=False, refs=()):
+        return {"name": name, "text": text, "ws": ws, "refs": list(refs), "attrs": list(attrs), "children": list(children)}
+    for clause in ("ws", "default", "fixed", "pad", "entity"):
+        for origin, pe_kind in ((0, None), (1, None), (2, "int"), (2, "ext")):
+            for sa in ((2, 1) if origin else (2,)):
+                a0 = r.below(4); tok = 1 + r.below(3)
+                d0 = {"name": 0, "spec": "K*1", "ext": 0, "atts": []}
+                d1 = {"name": 1, "spec": "E", "ext": 0, "atts": []}
+                root = el(0, children=[el(1), el(1)] if r.chance(1, 2) else [el(1)])
+                ents = []
+                if clause == "ws":
+                    d0["ext"] = origin; root["ws"] = True
+                elif clause == "default":
+                    d0["atts"].append((a0, r.choice(["C", "N", ("G", [tok, 11])]), ("DEF", [tok]), origin))
+                elif clause == "fixed":
+                    d0["atts"].append((a0, r.choice(["C", "N", "NS"]), ("FIX", [tok]), origin))
+                elif clause == "pad":
+                    d0["atts"].append((a0, r.choice(["NS", "N", "RS"]), "IMP", origin))
+                    d0["atts"].append((a0 + 1, "I", "IMP", 0))
+                    root["attrs"] = [(a0, [20], True), (a0 + 1, [20], False)]
+                else:
+                    d0["spec"] = "M1"; ents = [(0, origin)]; root["refs"] = [0]
+                doc = {"doctype": 0, "standalone": sa, "hasExt": False, "decls": [d0, d1], "ents": ents, "root": root,
+                       "unparsed": [], "pe_kind": pe_kind}
+                out.append(doc)
+    for t, ghost, good in (("R", [78], [20]), ("RS", [20, 79], [20]), ("Y", [32], [30]), ("YS", [30, 32], [30])):
+        for dk in ("DEF", "FIX"):
+            for scen in ("specified", "never-occurs", "applied", "resolved"):
+                if scen == "specified" and dk == "FIX":
+                    continue
+                val = good if scen == "resolved" else ghost
+                d0 = {"name": 0, "spec": "K*1", "ext": 0, "atts": [(1, "I", "REQ", 0)]}
+                d1 = {"name": 1, "spec": "E", "ext": 0, "atts": [(0, t, (dk, list(val)), 0)]}
+                kids = [] if scen == "never-occurs" else [el(1, attrs=[(0, list(good), False)] if scen == "specified" else [])]
+                out.append({"doctype": 0, "standalone": r.choice([0, 2]), "hasExt": False, "decls": [d0, d1], "ents": [],
+                            "root": el(0, attrs=[(1, [20], False)], children=kids), "unparsed": [30]})
+    return out
+
 def gen_docs(ctx, n):
     r = ctx.rng
     docs, kinds = [], {}
+    for doc in family_docs(r):
+        finish_doc(doc, r)
+        kinds["family"] = kinds.get("family", 0) + 1
+        xml, ext, extra = render(doc, r)
+        docs.append((abstract_line(doc), xml, ext, doc_flags(doc), extra))
     for _ in range(n):
         doc, nel = gen_doc(r)
         k = "none"
@@ -896,15 +1065,15 @@ def gen_docs(ctx, n):
             k = mutate(doc, nel, r)
         finish_doc(doc, r)
         kinds[k] = kinds.get(k, 0) + 1
-        xml, ext = render(doc, r)
-        docs.append((abstract_line(doc), xml, ext, doc_flags(doc)))
+        xml, ext, extra = render(doc, r)
+        docs.append((abstract_line(doc), xml, ext, doc_flags(doc), extra))
     return docs, kinds
 
 def doc_check(ctx, docs, origin):
     res, err = run_docs(docs)
     by = {}
     nvalid = 0; classes = {}; nsa = 0; next_ = 0
-    for (ab, xml, ext, flags), (sp, io) in zip(docs, res):
+    for (ab, xml, ext, flags, extra), (sp, io) in zip(docs, res):
         if ext is not None: next_ += 1
         if 'standalone="yes"' in xml: nsa += 1
         if sp.startswith("valid "):
@@ -915,12 +1084,12 @@ def doc_check(ctx, docs, origin):
                 classes[c] = classes.get(c, 0) + 1
         for key, what in judge_doc(sp, io, flags):
             if key not in by or len(xml) + len(ext or "") < len(by[key][1]) + len(by[key][2] or ""):
-                by[key] = (ab, xml, ext, what, sp, io)
-    for key, (ab, xml, ext, what, sp, io) in by.items():
+                by[key] = (ab, xml, ext, what, sp, io, extra)
+    for key, (ab, xml, ext, what, sp, io, extra) in by.items():
         ctx.violations.append({"key": key, "concrete": True,
             "what": "DTD validation of a generated document: %s. Document: %s%s" % (what, xml.replace("\n", " ")[:500],
                     "" if ext is None else "  EXTERNAL SUBSET ext.dtd: " + ext.replace("\n", " ")[:300]),
-            "replay": {"tier": "doc", "abstract": ab, "xml": xml, "ext": ext, "spec": sp, "impl": io, "origin": origin}})
+            "replay": {"tier": "doc", "abstract": ab, "xml": xml, "ext": ext, "external_pes": extra, "spec": sp, "impl": io, "origin": origin}})
     if "runtime error" in err or "AddressSanitizer" in err:
         ctx.violations.append({"key": "doc-sanitizer", "concrete": True,
                                "what": "sanitizer report while validating generated documents: " + common.sanitizer_summary(err),
@@ -928,8 +1097,9 @@ def doc_check(ctx, docs, origin):
     return {"valid": nvalid, "classes": classes, "standalone_yes": nsa, "with_external_subset": next_}, res
 
 def doc_correspondence(ctx):
-    n = 6000 if ctx.thorough() else 500
+    n = 6000 if ctx.thorough() else 400
     docs, kinds = gen_docs(ctx, n)
+    n = len(docs)                      # random documents + the systematic family
     st, res = doc_check(ctx, docs, "correspondence")
     ctx.stats["documents"] = n
     ctx.stats["document_parses"] = n * len(MODES)
@@ -944,9 +1114,11 @@ def doc_correspondence(ctx):
         ctx.samples.append({"doc": docs[k][1].replace("\n", " ")[:300], "ext": docs[k][2], "spec": res[k][0][:120], "impl": res[k][1][:160]})
 
 def doc_replay(ctx, r):
-    res, _ = run_docs([(r["abstract"], r["xml"], r.get("ext"), ())], verbose=True)
+    res, _ = run_docs([(r["abstract"], r["xml"], r.get("ext"), (), r.get("external_pes") or {})], verbose=True)
     sp, io = res[0]
     print("document:\n" + r["xml"])
+    for k, v in sorted((r.get("external_pes") or {}).items()):
+        print("external parameter entity %s:\n%s" % (k, v))
     if r.get("ext") is not None:
         print("external subset (ext.dtd):\n" + r["ext"])
     print("spec :", sp)
